@@ -3,7 +3,7 @@ import core
 from core import hx, gen_int, gen_mag, gen_words_len
 
 ID = "C12"
-READY = False
+READY = True
 ORACLE = "c12"
 HARNESS_BIN = "c12"
 NCASES = {"quick": 7000, "thorough": 120000}
